@@ -661,3 +661,4 @@ PROPS["C20"]["rule"] += " A fifth part (http-breaker) drives the breaker where r
 PROPS["C15"]["rule"] += " One schedule in eight of the sys.System part lies wholly in the past (1 January 2001 on the virtual clock): the rule is refused (and then nothing changes - a rule of that id that was there keeps running) or it exists and never runs."
 PROPS["C12"]["rule"] += " Facts carry a second property with one of two names, and `searchKind` requests search for one of them (such a search meets what overwritten and removed facts left behind in the term index)."
 PROPS["C17"]["rule"] += " The three concurrent parts also run under the race detector (create: both tiers; first-requests and wipe: thorough tier): any data race report naming rulio frames is a violation."
+PROPS["C10"]["rule"] += " Histories also add event rules that carry an empty (\"\" or null) `schedule` (which must fire like any event rule unless the add is refused) and send events that bring their own rule along (`evaluate!`), which run exactly that rule in an enabled location and are refused by a disabled one."
